@@ -49,10 +49,48 @@ def crashed(v):
     return None
 
 
+def list_lengths(v, path=()):
+    """the length of every list in a config (a dump of the worker or the data a case starts from), by position"""
+    out = {}
+    if not isinstance(v, dict):
+        return out
+    if "ok" in v and isinstance(v["ok"], dict):
+        return list_lengths(v["ok"], path)
+    if "arr" in v or "dict" in v:
+        items, entries = v.get("arr") or [], list((v.get("dict") or {}).items())
+    elif isinstance(v.get("a"), list):
+        items, entries = v["a"], []
+    elif isinstance(v.get("m"), dict):
+        items, entries = [], list(v["m"].items())
+    elif isinstance(v.get("m"), list):
+        items, entries = [], [(k, x) for k, x in v["m"]]
+    else:
+        return out
+    if items:
+        out[path] = len(items)
+    for i, x in enumerate(items):
+        out.update(list_lengths(x, path + (i,)))
+    for k, x in entries:
+        out.update(list_lengths(x, path + (k,)))
+    return out
+
+
 def oracle(case, impl, model):
     r = crashed(impl)
     if r:
         return (False, "a public entry point did not return normally: " + r)
+    if case.get("k") == "ops" and isinstance(impl, dict) and isinstance(impl.get("steps"), list):
+        # a write under MaxIdx(m) allocates at most m+1 slots: no list it grows ends up longer than that
+        prev = list_lengths(case.get("init")) if impl.get("init") == "ok" and not case.get("optsInit") else None
+        for op, st in zip(case.get("ops", []), impl["steps"]):
+            cur = list_lengths(st.get("root")) if isinstance(st, dict) else None
+            m = next((int(o["v"]) for o in op.get("opts", []) if o.get("o") == "MaxIdx"), None)
+            if m is not None and m >= 0 and op.get("op") in ("set", "setchild") and prev is not None and cur is not None:
+                for pth, n in cur.items():
+                    if n > prev.get(pth, 0) and n > m + 1:
+                        return (False, "a write under MaxIdx(%d) grew the list at %s to %d slots" % (m, ".".join(map(str, pth)) or "<root>", n))
+            prev = cur
+        return (True, "")
     return (True, "")
 
 
@@ -134,6 +172,11 @@ def gen(rng, tier):
             k = rng.pick(["set", "remove", "get", "has", "child", "setchild"])
             o = {"op": k, "h": 0, "name": rng.pick(["", "l", "a", "a.b", "l.1", "-1", "a.-1", "1e3", "0x10", ".", "..", "...", "a..b", ".a", "a.", "l..1", "a.b."]), "idx": rng.pick(idxs),
                  "opts": [opt("PathSep", ".")] if rng.chance(0.6) else []}
+            if rng.chance(0.3):
+                # a configured maximum index, the boundary value 0 included: what a write may allocate is bounded by it
+                o["opts"] = o["opts"] + [opt("MaxIdx", rng.pick(["0", "0", "1", "3"]))]
+                o["idx"] = rng.pick([0, 1, 2, 4, 700, 1024, 1025])
+                if rng.chance(0.4): o["name"] = rng.pick(["l.900", "a.700", "l.3", "n.0", "n.1"])
             if k == "set": o["val"] = U(1)
             if k == "setchild": o["val"] = M([("z", U(1))]); o["copts"] = []
             if k == "get": o["type"] = rng.pick(["Int", "String", "Bool"])
